@@ -6,7 +6,7 @@ import glob, json, os, re, sys
 
 prop, tier, seed, out, build_s, run_s = sys.argv[1], sys.argv[2], int(sys.argv[3]), sys.argv[4], float(sys.argv[5]), float(sys.argv[6])
 replay_mode = len(sys.argv) > 7 and sys.argv[7] == "replay"
-V = "/verif"
+V = os.path.dirname(os.path.abspath(__file__))
 EVD = os.environ.get("VERIF_EVIDENCE_DIR", os.path.join(V, "evidence"))
 
 parts = []
